@@ -25,6 +25,8 @@ CMP = ("Eq", "Ne", "Lt", "Le", "Gt", "Ge")
 # From between integer types is lossless by definition
 _IS_NEG = re.compile(r"core::num::<impl (i8|i16|i32|i64|i128|isize)>::(is_negative|is_positive)")
 _ORD_CMP = re.compile(r"core::cmp::impls::<impl core::cmp::Ord for (u8|u16|u32|u64|u128|usize|i8|i16|i32|i64|i128|isize)>::cmp")
+_TRY_FROM_INT = re.compile(r"core::convert::num::(?:ptr_try_from_impls::)?<impl core::convert::TryFrom<(u8|u16|u32|u64|u128|usize|i8|i16|i32|i64|i128|isize)> for "
+                           r"(u8|u16|u32|u64|u128|usize|i8|i16|i32|i64|i128|isize)>::try_from")
 _FROM_INT = re.compile(r"core::convert::num::<impl core::convert::From<(u8|u16|u32|u64|usize|bool|i8|i16|i32|i64|isize)> for "
                        r"(u16|u32|u64|u128|usize|i16|i32|i64|i128|isize)>::from")
 
@@ -1261,6 +1263,14 @@ class Analysis:
             iv, _ = self.eval_operand(st, args[0])
         elif name is not None and _FROM_INT.fullmatch(name) and args:
             iv, _ = self.eval_operand(st, args[0])   # lossless integer widening
+        elif name is not None and _TRY_FROM_INT.fullmatch(name) and args:
+            # checked integer conversion: Ok(v) carries the argument's value, which then lies in the target's range
+            src_iv, _ = self.eval_operand(st, args[0])
+            tgt = ty_range(_TRY_FROM_INT.fullmatch(name).group(2))
+            if tgt is not None:
+                ok_iv = tgt if src_iv is None else (max(src_iv[0], tgt[0]), min(src_iv[1], tgt[1]))
+                if ok_iv[0] <= ok_iv[1]:
+                    paths[(("dc", 0), ("f", 0))] = ok_iv
         elif name in self.IDENTITY_CALLS and a0_local is not None and a0_local not in self.escaped:
             if st.rel.get(a0_local, (None,))[0] in ("iterof", "enumof"):
                 newrel = st.rel[a0_local]
